@@ -405,6 +405,36 @@ func realCheckCycle(raw json.RawMessage) any {
 	return map[string]any{"err": err.Error()}
 }
 
+// unsoundCycle returns "" when the real outcome is not a cycle report or the reported list is a closed walk of the graph.
+func unsoundCycle(args, real json.RawMessage) string {
+	var r struct {
+		Cycle []string `json:"cycle"`
+	}
+	if json.Unmarshal(real, &r) != nil || r.Cycle == nil {
+		return ""
+	}
+	var a depArgs
+	json.Unmarshal(args, &a)
+	edges := map[[2]string]bool{}
+	for _, e := range a.Graph {
+		for _, c := range e[1].([]any) {
+			edges[[2]string{e[0].(string), c.(string)}] = true
+		}
+	}
+	if len(r.Cycle) < 2 {
+		return fmt.Sprintf("%v has no edge", r.Cycle)
+	}
+	if r.Cycle[0] != r.Cycle[len(r.Cycle)-1] {
+		return fmt.Sprintf("%v does not end where it starts", r.Cycle)
+	}
+	for i := 0; i+1 < len(r.Cycle); i++ {
+		if !edges[[2]string{r.Cycle[i], r.Cycle[i+1]}] {
+			return fmt.Sprintf("%v: %s does not depend on %s", r.Cycle, r.Cycle[i], r.Cycle[i+1])
+		}
+	}
+	return ""
+}
+
 // ---------------------------------------------------------------- registration
 
 func init() {
@@ -470,6 +500,11 @@ func init() {
 				} else {
 					return core.Fail("hang@checkCycle", "graph.CheckCycle does not return on this dependency graph ("+why+"); the model answers "+string(drv))
 				}
+			}
+			// the statement of `dependsOn_reported_cycle_sound`, observed on the real code itself (not through the model):
+			// the list in the error is a walk along edges of THIS graph from a vertex back to itself
+			if why := unsoundCycle(args, real); why != "" {
+				return core.Fail("cycle-report-unsound@graph.CheckCycle", "graph.CheckCycle reports a dependency cycle that is not one in the graph: "+why)
 			}
 			return crashOr("Dep.checkCycle ≠ graph.CheckCycle")(args, real, drv)
 		}})
